@@ -320,12 +320,19 @@ def View.see (v : View) : Ev → View
 /-- the connection has ended and nothing is left to read -/
 def View.dead (v : View) : Bool := (v.shut || v.peerEnded) && (v.got == v.sent || v.sawClosed)
 
+/-- the line numbers `readline` handed out along a trace -/
+def linesOf : List Ev → List Nat
+  | [] => []
+  | .call .readline (.line n) :: es => n :: linesOf es
+  | _ :: es => linesOf es
+
 /-- one call, made in the situation `v`, behaves as the client needs it:
 * `shutdown()` and `disconnect()` return normally — always;
 * `readline()` on a connection that was not disconnected raises nothing but `ConnectionClosed`, and that only when
   the connection has ended (peer closed / reset, or shut down locally); it returns only the next unread line the peer
-  sent; on a dead connection it raises `ConnectionClosed` (it does not go on returning `None`: the rx thread would
-  never notice);
+  sent, in whatever segments and with whatever pauses its bytes arrived (`peerPart`); it returns `None` only when no
+  complete line is waiting; on a dead connection it raises `ConnectionClosed` (it does not go on returning `None`: the
+  rx thread would never notice);
 * `send()` after `shutdown()` does not return normally (the tx thread notices). -/
 def CallOk (v : View) : Op → Out → Prop
   | .shutdown, r => r = .ok
@@ -334,7 +341,7 @@ def CallOk (v : View) : Op → Out → Prop
     v.gone = true ∨
       (match r with
        | .line n => n = v.got ∧ v.got < v.sent ∧ v.sawClosed = false
-       | .nothing => v.dead = false
+       | .nothing => v.dead = false ∧ v.got = v.sent
        | .closed => v.shut = true ∨ v.peerEnded = true
        | _ => False)
   | .send, r => v.gone = true ∨ v.shut = false ∨ r ≠ .ok
@@ -370,6 +377,7 @@ theorem connFirstBad_iff (v : View) (tr : List Ev) (i : Nat) :
       · simp [h, ih]
       · simp [h]
     | peerSend => simp [ih]
+    | peerPart => simp [ih]
     | peerFin => simp [ih]
     | peerRst => simp [ih]
 
